@@ -120,6 +120,18 @@ theorem maxSafeAlpha_maximal (p g : Rat) (l : Bool) (u1 u2 v1 v2 w1 w2 α : Rat)
   rw [msa_of_violated p g l _ _ _ _ _ _ h1 h2, div_lt_iff₀ hd] at hα
   rw [slack_line]; linarith
 
+-- joint non-vacuity of `maxSafeAlpha_formula`, `maxSafeAlpha_returns_root`, `maxSafeAlpha_range`, `maxSafeAlpha_maximal`:
+-- u, v fixed at 0 and 4, p = 1/2, w moves from 1 to 5 (feasible initially, violated finally, denominator ≠ 0, root 1/4 ≥ 0);
+-- α = 1/2 exceeds the root, and the theorem gives a violated constraint there
+example :
+    (0 : Rat) ≤ slack (1/2) 0 true 0 4 1 ∧ slack (1/2) 0 true 0 4 5 < 0 ∧
+    msaDen (1/2) 0 0 4 4 1 5 ≠ 0 ∧ (0 : Rat) ≤ msaNum (1/2) 0 0 4 1 / msaDen (1/2) 0 0 4 4 1 5 ∧
+    maxSafeAlpha (1/2) 0 true 0 0 4 4 1 5 < 1/2 := by
+  norm_num [maxSafeAlpha, slack, msaNum, msaDen]
+example : slack (1/2) 0 true (0 + 1/2 * (0 - 0)) (4 + 1/2 * (4 - 4)) (1 + 1/2 * (5 - 1)) < 0 :=
+  maxSafeAlpha_maximal (1/2) 0 true 0 0 4 4 1 5 (1/2) (by norm_num [slack]) (by norm_num [slack])
+    (by norm_num [maxSafeAlpha, slack, msaNum, msaDen])
+
 /-- The minimum computed by the loop in `solve()` is at most 1 and at most every `maxSafeAlpha`. -/
 theorem minAlpha_le (cs : List TriConstraint) (ini fin : Pos) :
     minAlpha cs ini fin ≤ 1 ∧ ∀ c ∈ cs, minAlpha cs ini fin ≤ c.msa ini fin :=
@@ -169,6 +181,21 @@ theorem solve_move_stops_tight (cs : List TriConstraint) (ini fin : Pos) (hini :
       rcases div_eq_zero_iff.mp h0 with h' | h'
       · exact h'
       · linarith
+
+-- non-vacuity of `solve_move_stops_tight` (and `solve_move_safe`): the two-constraint system of the example after
+-- `maxSafeAlpha_safe` is feasible initially and has minAlpha = 1/4 < 1; the theorem instantiated on it
+example :
+    let cs := [({ u := 0, v := 1, w := 2, p := 1/2, g := 0, leftOf := true } : TriConstraint),
+               { u := 0, v := 0, w := 2, p := 0, g := 0, leftOf := false }]
+    let ini : Pos := fun i => if i = 1 then 4 else if i = 2 then 1 else 0
+    let fin : Pos := fun i => if i = 1 then 4 else if i = 2 then 5 else 0
+    ∃ c ∈ cs, c.msa ini fin = minAlpha cs ini fin ∧ c.slackAt (moveStep cs ini fin) = 0 := by
+  intro cs ini fin
+  refine solve_move_stops_tight cs ini fin ?_ ?_
+  · intro c hc
+    simp only [cs, List.mem_cons, List.not_mem_nil, or_false] at hc
+    rcases hc with rfl | rfl <;> norm_num [TriConstraint.slackAt, slack, ini]
+  · norm_num [cs, ini, fin, minAlpha, minAlphaFrom, TriConstraint.msa, maxSafeAlpha, slack, msaNum, msaDen]
 
 /-! ## Part 2: soundness (and completeness) of the state checkers run on the real library -/
 
@@ -422,18 +449,50 @@ theorem cycleListConsistent_sound (info : List Nat) (path : List PathPt)
     obtain ⟨⟨⟨⟨⟨h1, h2⟩, h3⟩, h4⟩, h5⟩, h6⟩ := h
     exact ⟨nSeg, by rw [h1, h2, h3, h4, h5], h6⟩
 
-/-- All four state invariants at once (what the driver evaluates after every layout step). -/
+-- non-vacuity of `cycleClosed_sound`, `cycleListConsistent_sound`: a closed three-segment boundary path
+example :
+    cycleClosed [⟨0, 0, 2, 2⟩, ⟨1, 3, 4, 2⟩, ⟨2, 1, 3, 0⟩, ⟨0, 0, 2, 2⟩] = true ∧
+    cycleListConsistent [3, 3, 1, 1, 3, 1] [⟨0, 0, 2, 2⟩, ⟨1, 3, 4, 2⟩, ⟨2, 1, 3, 0⟩, ⟨0, 0, 2, 2⟩] = true := by
+  decide +kernel
+
+/-- All four state invariants at once (`stateOk` bundles the component checkers the driver's `firstViolation`
+    evaluates, edge by edge, after every layout step).  `stateOk` pairs paths with `ends` by `List.zip`, which silently
+    drops the paths beyond `ends.length`; the last clause says that with enough `ends` EVERY path is covered. -/
 theorem stateOk_sound (ends : List (Nat × Nat)) (s : State) (h : stateOk ends s = true) :
     s.nodes.Pairwise (fun a b => ¬ OverlapBy a b) ∧
-    ∀ pe ∈ s.paths.zip ends,
+    (∀ pe ∈ s.paths.zip ends,
       ¬ SegThroughNode s.nodes pe.1 ∧ EndsAt s.nodes pe.2.1 pe.2.2 pe.1 ∧
-      ∀ uvw ∈ triples pe.1, BendOK s.nodes uvw.1 uvw.2.1 uvw.2.2 := by
+      ∀ uvw ∈ triples pe.1, BendOK s.nodes uvw.1 uvw.2.1 uvw.2.2) ∧
+    (s.paths.length ≤ ends.length → ∀ (i : Nat) (path : List PathPt), s.paths[i]? = some path → ∃ e : Nat × Nat, ends[i]? = some e ∧
+      ¬ SegThroughNode s.nodes path ∧ EndsAt s.nodes e.1 e.2 path ∧
+      ∀ uvw ∈ triples path, BendOK s.nodes uvw.1 uvw.2.1 uvw.2.2) := by
   unfold stateOk at h
   simp only [Bool.and_eq_true, List.all_eq_true] at h
-  refine ⟨(noNodeOverlap_iff _).mp h.1, fun pe hpe => ?_⟩
-  obtain ⟨⟨h1, h2⟩, h3⟩ := h.2 pe hpe
-  exact ⟨(noSegmentThroughNode_iff _ _).mp h1, (endsUnchanged_iff _ _ _ _).mp h2,
-         (bendsAtCorners_iff _ _).mp h3⟩
+  have main : ∀ pe ∈ s.paths.zip ends,
+      ¬ SegThroughNode s.nodes pe.1 ∧ EndsAt s.nodes pe.2.1 pe.2.2 pe.1 ∧
+      ∀ uvw ∈ triples pe.1, BendOK s.nodes uvw.1 uvw.2.1 uvw.2.2 := fun pe hpe => by
+    obtain ⟨⟨h1, h2⟩, h3⟩ := h.2 pe hpe
+    exact ⟨(noSegmentThroughNode_iff _ _).mp h1, (endsUnchanged_iff _ _ _ _).mp h2,
+           (bendsAtCorners_iff _ _).mp h3⟩
+  refine ⟨(noNodeOverlap_iff _).mp h.1, main, fun hlen i path hp => ?_⟩
+  obtain ⟨hi, rfl⟩ := List.getElem?_eq_some_iff.mp hp
+  have hi' : i < ends.length := Nat.lt_of_lt_of_le hi hlen
+  have hz : (s.paths.zip ends)[i]? = some (s.paths[i], ends[i]) := by
+    rw [List.getElem?_zip_eq_some]
+    exact ⟨List.getElem?_eq_getElem hi, List.getElem?_eq_getElem hi'⟩
+  exact ⟨ends[i], List.getElem?_eq_getElem hi', main _ (List.mem_of_getElem? hz)⟩
+
+-- non-vacuity of `stateOk_sound`, `isCentreOf_sound`, `turnsAround_excludes_wrong_side` (and the accepting side of
+-- `endsUnchanged_iff`): the detour state of the examples above is accepted as a whole, with one (path, ends) pair actually
+-- checked; its first bend is a strict right turn (s = -2 < -τ) around node 1's centre (5,1)
+example :
+    let nodes : List NodeRect := [⟨0, 2, 0, 2⟩, ⟨4, 6, 0, 2⟩, ⟨8, 10, 0, 2⟩]
+    let path : List PathPt := [⟨0, 4, 1, 1⟩, ⟨1, 3, 4, 2⟩, ⟨1, 0, 6, 2⟩, ⟨2, 4, 9, 1⟩]
+    isCentreOf nodes 0 ⟨0, 4, 1, 1⟩ = true ∧ endsUnchanged nodes 0 2 path = true ∧
+    turnsAround ⟨0, 4, 1, 1⟩ ⟨1, 3, 4, 2⟩ ⟨1, 0, 6, 2⟩ 5 1 = true ∧
+    stateOk [(0, 2)] ⟨nodes, [path]⟩ = true ∧
+    (([path] : List (List PathPt)).zip [((0 : Nat), (2 : Nat))]).length = 1 := by
+  decide +kernel
 
 end Checkers
 
